@@ -22,6 +22,16 @@
 //!   change what the terminal shows before it has called the inner object. For the encoder wrapper only
 //!   the reads made in `inner.update()` and in the first `inner.get()` after it are compared (they
 //!   causally precede the write of that state); later ones are only required not to panic.
+//! * "Following" stratum (sub-checks `*-following`), for every wrapper: the wrapper's OWN terminal follows
+//!   a scripted state getter and a scripted command getter (present / absent, never erring; payload
+//!   stamps older / equal / newer than what the slot holds), so data reach it the way other devices
+//!   deliver them: the wrapper pulls them in during its own update. "What the terminal sees" is then
+//!   the view AFTER the pull: the monitor's slot model with a present followed datum replacing the own
+//!   slot, turned into the expected combined read by a scratch pair of the crate's own terminals (and
+//!   cross-checked against the independent model as everywhere else). Encoder wrapper: only "a present
+//!   getter state ends up in the state slot (a followed state must not win over it)" is asserted; when
+//!   nothing is written each own slot may hold its old content or the followed datum, and the command
+//!   slot is never judged (whether/when the pull happens on those paths is not in the statement).
 //! Where the statement is silent (is `inner.update()` still called after a failing `inner.set`? does
 //! the encoder wrapper touch the command slot when it writes a state? how many times is an inner method
 //! called? does the PID wrapper's motor get its value by following the PID inside its own `update()` or
@@ -408,6 +418,192 @@ fn judge_obs(rep: &mut Report, wrapper: &str, sub: &'static str, case: u64, roun
     }
     true
 }
+// ---- following stratum ---------------------------------------------------------------------------
+/// What one followed getter of the wrapper's own terminal does in a round.
+#[derive(Clone, Copy, Debug, PartialEq)]
+enum FEv<T> {
+    /// keeps returning what it returned before (a present datum is pulled again by every update)
+    Keep,
+    Absent,
+    /// present: payload stamp, payload value
+    Present(i64, T),
+}
+impl<T> FEv<T> {
+    fn kind(&self) -> u8 {
+        match self {
+            FEv::Keep => 0,
+            FEv::Absent => 1,
+            FEv::Present(..) => 2,
+        }
+    }
+}
+#[derive(Clone, Copy, Debug)]
+struct FollowRound {
+    s: FEv<[f32; 3]>,
+    c: FEv<Command>,
+    /// stamp of the getters' outer datum (ignored by following; any value)
+    outer: i64,
+}
+/// The two scripted getters the wrapper's own terminal follows, and what they currently return.
+struct Followed {
+    src_s: Src<Datum<State>>,
+    src_c: Src<Datum<Command>>,
+    cur_s: Option<Datum<State>>,
+    cur_c: Option<Datum<Command>>,
+}
+impl Followed {
+    fn attach(term: &Term<'_>) -> Followed {
+        let f = Followed { src_s: Src::new(), src_c: Src::new(), cur_s: None, cur_c: None };
+        Settable::<Datum<State>, E>::follow(&mut *term.borrow_mut(), f.src_s.dynref());
+        Settable::<Datum<Command>, E>::follow(&mut *term.borrow_mut(), f.src_c.dynref());
+        f
+    }
+    fn rel(rep: &mut Report, wrapper: &str, what: &str, new: i64, stored: Option<i64>) {
+        let r = match stored {
+            None => "slot_empty",
+            Some(t) if new < t => "older_than_stored",
+            Some(t) if new == t => "same_stamp_as_stored",
+            Some(_) => "newer_than_stored",
+        };
+        rep.tally(&format!("{}_followed_{}_present/{}", wrapper, what, r));
+    }
+    fn deliver(&mut self, rep: &mut Report, wrapper: &str, f: &FollowRound, m: &Slots) {
+        match f.s {
+            FEv::Keep => {}
+            FEv::Absent => {
+                self.cur_s = None;
+                self.src_s.none();
+            }
+            FEv::Present(t, v) => {
+                let d = Datum::new(Time(t), st(v));
+                self.cur_s = Some(d);
+                self.src_s.some(f.outer, d);
+            }
+        }
+        match f.c {
+            FEv::Keep => {}
+            FEv::Absent => {
+                self.cur_c = None;
+                self.src_c.none();
+            }
+            FEv::Present(t, c) => {
+                let d = Datum::new(Time(t), c);
+                self.cur_c = Some(d);
+                self.src_c.some(f.outer, d);
+            }
+        }
+        match self.cur_s {
+            Some(d) => Self::rel(rep, wrapper, "state", d.time.0, m.own_s.map(|x| x.time.0)),
+            None => rep.tally(&format!("{}_followed_state_absent", wrapper)),
+        }
+        match self.cur_c {
+            Some(d) => Self::rel(rep, wrapper, "command", d.time.0, m.own_c.map(|x| x.time.0)),
+            None => rep.tally(&format!("{}_followed_command_absent", wrapper)),
+        }
+    }
+    /// the slots as they are once the terminal has pulled: a present followed datum replaces the own slot
+    fn after_pull(&self, m: &Slots) -> Slots {
+        let mut n = *m;
+        if let Some(d) = self.cur_s {
+            n.own_s = Some(d);
+        }
+        if let Some(d) = self.cur_c {
+            n.own_c = Some(d);
+        }
+        n
+    }
+}
+/// Combined read of a terminal whose slots are `m`, asked of a scratch pair of the crate's own terminals
+/// (the read semantics are cross-checked separately by `check_sees`).
+fn scratch_read(m: &Slots) -> Result<Out<TerminalData>, String> {
+    catch(|| {
+        let a: Term<'_> = Terminal::new();
+        let b: Term<'_> = Terminal::new();
+        if let Some(d) = m.own_s {
+            set_state(&a, d);
+        }
+        if let Some(d) = m.own_c {
+            set_command(&a, d);
+        }
+        if let Some(d) = m.ext_s {
+            set_state(&b, d);
+        }
+        if let Some(d) = m.ext_c {
+            set_command(&b, d);
+        }
+        if m.linked {
+            connect(&a, &b);
+        }
+        let r = <Terminal<E> as Getter<TerminalData, E>>::get(&a.borrow());
+        r
+    })
+}
+/// Follow events for a history with the given terminal traffic. Payload stamps are placed relative to
+/// the stamp the generator believes the own slot holds (older / equal / newer, offsets <= 5e9 ns, so
+/// |t| stays below 2^41).
+fn gen_follow(rng: &mut Rng, ops: &[TermOps], v: Vals) -> Vec<FollowRound> {
+    let p_ev = *rng.pick(&[0.3, 0.7]);
+    let use_s = rng.chance(0.85);
+    let use_c = rng.chance(0.6) || !use_s;
+    let mut st_s: Option<i64> = None;
+    let mut st_c: Option<i64> = None;
+    let mut base = rng.range_i64(-(1i64 << 39), 1i64 << 39);
+    let mut cur_s: Option<i64> = None;
+    let mut cur_c: Option<i64> = None;
+    let mut out = Vec::with_capacity(ops.len());
+    for o in ops {
+        if let Some((t, _)) = o.own_s {
+            st_s = Some(t);
+        }
+        if let Some((t, _)) = o.own_c {
+            st_c = Some(t);
+        }
+        if let Some((t, _)) = o.ext_s {
+            base = t;
+        }
+        let mut stamp = |rng: &mut Rng, stored: Option<i64>| match stored {
+            Some(t) => match rng.below(4) {
+                0 => t - rng.step_ns(1, 5_000_000_000),
+                1 => t,
+                _ => t + rng.step_ns(1, 5_000_000_000),
+            },
+            None => base,
+        };
+        let s = if use_s && rng.chance(p_ev) {
+            if rng.chance(0.3) {
+                cur_s = None;
+                FEv::Absent
+            } else {
+                let t = stamp(rng, st_s);
+                cur_s = Some(t);
+                FEv::Present(t, [val(rng, v), val(rng, v), val(rng, v)])
+            }
+        } else {
+            FEv::Keep
+        };
+        let c = if use_c && rng.chance(p_ev) {
+            if rng.chance(0.3) {
+                cur_c = None;
+                FEv::Absent
+            } else {
+                let t = stamp(rng, st_c);
+                cur_c = Some(t);
+                FEv::Present(t, gen_cmd(rng, v))
+            }
+        } else {
+            FEv::Keep
+        };
+        // what the slot holds after this round's pull (a kept present datum is pulled again)
+        if cur_s.is_some() {
+            st_s = cur_s;
+        }
+        if cur_c.is_some() {
+            st_c = cur_c;
+        }
+        out.push(FollowRound { s, c, outer: rng.stamp() });
+    }
+    out
+}
 /// Which handles the inner object of an observing case holds: (own terminal, external terminal).
 fn gen_handles(rng: &mut Rng) -> (bool, bool) {
     *rng.pick(&[(true, true), (true, true), (true, false), (false, true)])
@@ -577,7 +773,7 @@ fn gen_act(rng: &mut Rng) -> Vec<SetRound> {
     let (pr, pu) = *rng.pick(&[(0.0, 0.0), (0.15, 0.1), (0.4, 0.3)]);
     tr.ops.into_iter().map(|ops| { let (reject, upd_err) = gen_inner(rng, pr, pu); SetRound { ops, reject, upd_err } }).collect()
 }
-fn run_act(rep: &mut Report, sub: &'static str, case: u64, rounds: &[SetRound], observe: Option<(bool, bool)>) {
+fn run_act(rep: &mut Report, sub: &'static str, case: u64, rounds: &[SetRound], observe: Option<(bool, bool)>, follow: Option<&[FollowRound]>) {
     let ext: Term<'_> = Terminal::new();
     let rec = rc(RecSettable::<TerminalData>::new());
     let probe = observe.map(|_| rc(Probe { own: None, ext: None, log: Vec::new() }));
@@ -589,11 +785,20 @@ fn run_act(rep: &mut Report, sub: &'static str, case: u64, rounds: &[SetRound], 
         p.ext = if other { Some(&ext) } else { None };
     }
     let mut slots = Slots::default();
+    let mut followed = follow.map(|_| Followed::attach(term));
+    let mut fseq: Vec<(u8, u8)> = Vec::new();
     let mut seq: Vec<(u8, u8)> = Vec::with_capacity(rounds.len());
-    let hist = || format!("inner object holds (own terminal, external terminal) = {:?}; rounds={:?}", observe, rounds);
+    let hist = || format!("inner object holds (own terminal, external terminal) = {:?}; own terminal follows getters: {:?}; rounds={:?}", observe, follow, rounds);
     for (i, r) in rounds.iter().enumerate() {
         apply(&r.ops, term, &ext);
         slots.note(&r.ops);
+        // following stratum: what the own terminal will have pulled in at the start of the update
+        let mut pulled: Option<Slots> = None;
+        if let (Some(fw), Some(fr)) = (followed.as_mut(), follow) {
+            fw.deliver(rep, "actuator", &fr[i], &slots);
+            fseq.push((fr[i].s.kind(), fr[i].c.kind()));
+            pulled = Some(fw.after_pull(&slots));
+        }
         {
             let mut m = rec.borrow_mut();
             m.reject = r.reject.is_some();
@@ -602,7 +807,8 @@ fn run_act(rep: &mut Report, sub: &'static str, case: u64, rounds: &[SetRound], 
         }
         let exp_views = if probe.is_some() { expected_views(term, &ext, &slots) } else { None };
         let o0p = probe.as_ref().map(|p| p.borrow().log.len()).unwrap_or(0);
-        let before = match read_td(term) {
+        let pre_pull = read_td(term);
+        let before = match if let Some(n) = &pulled { scratch_read(n) } else { pre_pull.clone() } {
             Ok(Ok(b)) => b,
             other => {
                 // not this property's business (C03/C09), but nothing can be judged without it
@@ -614,6 +820,14 @@ fn run_act(rep: &mut Report, sub: &'static str, case: u64, rounds: &[SetRound], 
             }
         };
         // ---- (m) what the terminal sees, against the monitor's own model of the slots it wrote
+        if let Some(n) = pulled {
+            if let Ok(Ok(p)) = &pre_pull {
+                if !out_same(&Ok(*p), &Ok(before), td_same) {
+                    rep.tally("actuator_follow_pull_changes_what_terminal_sees");
+                }
+            }
+            slots = n;
+        }
         if !check_sees(rep, "actuator", sub, case, i, &before, &slots, &hist) {
             return;
         }
@@ -705,9 +919,9 @@ fn run_act(rep: &mut Report, sub: &'static str, case: u64, rounds: &[SetRound], 
             rep.tally(if set_failed { "actuator_set_errors_propagated" } else { "actuator_update_errors_propagated" });
         }
     }
-    rep.distinct((sub, seq, observe));
+    rep.distinct((sub, seq, observe, fseq));
     if rep.want_sample(sub) && rounds.iter().any(|r| r.ops.ext_s.is_some() || r.ops.own_c.is_some()) {
-        rep.sample(sub, format!("{} rounds, first 3: {:?}", rounds.len(), &rounds[..rounds.len().min(3)]));
+        rep.sample(sub, format!("{} rounds, first 3: {:?}; followed getters, first 3: {:?}", rounds.len(), &rounds[..rounds.len().min(3)], follow.map(|f| &f[..f.len().min(3)])));
     }
 }
 // ------------------------------------------------------------------------------------------------
@@ -751,7 +965,7 @@ fn gen_enc(rng: &mut Rng) -> Vec<EncRound> {
         })
         .collect()
 }
-fn run_enc(rep: &mut Report, sub: &'static str, case: u64, rounds: &[EncRound], observe: Option<(bool, bool)>) {
+fn run_enc(rep: &mut Report, sub: &'static str, case: u64, rounds: &[EncRound], observe: Option<(bool, bool)>, follow: Option<&[FollowRound]>) {
     let ext: Term<'_> = Terminal::new();
     let gs = rc(GState { cur: Ok(None), next: Ok(None), upd_err: None, updates: 0, gets: 0 });
     let probe = observe.map(|_| rc(Probe { own: None, ext: None, log: Vec::new() }));
@@ -763,11 +977,18 @@ fn run_enc(rep: &mut Report, sub: &'static str, case: u64, rounds: &[EncRound], 
         p.ext = if other { Some(&ext) } else { None };
     }
     let mut slots = Slots::default();
+    let mut followed = follow.map(|_| Followed::attach(term));
+    let mut fseq: Vec<(u8, u8)> = Vec::new();
     let mut seq: Vec<(u8, bool, bool)> = Vec::with_capacity(rounds.len());
-    let hist = || format!("inner object holds (own terminal, external terminal) = {:?}; rounds={:?}", observe, rounds);
+    let hist = || format!("inner object holds (own terminal, external terminal) = {:?}; own terminal follows getters: {:?}; rounds={:?}", observe, follow, rounds);
     for (i, r) in rounds.iter().enumerate() {
         apply(&r.ops, term, &ext);
         slots.note(&r.ops);
+        if let (Some(fw), Some(fr)) = (followed.as_mut(), follow) {
+            fw.deliver(rep, "encoder", &fr[i], &slots);
+            fseq.push((fr[i].s.kind(), fr[i].c.kind()));
+        }
+        let (fol_s, fol_c) = followed.as_ref().map(|f| (f.cur_s, f.cur_c)).unwrap_or((None, None));
         let exp_views = if probe.is_some() { expected_views(term, &ext, &slots) } else { None };
         let o0p = probe.as_ref().map(|p| p.borrow().log.len()).unwrap_or(0);
         let present: Out<State> = match &r.getter {
@@ -826,7 +1047,9 @@ fn run_enc(rep: &mut Report, sub: &'static str, case: u64, rounds: &[EncRound], 
             rep.violation("C20/encoder/inner-update", sub, case, format!("round {}: inner getter updated {} times by one update(); {}", i, du, hist()));
             return;
         }
-        let untouched = ds_same(&s0, &s1) && dc_same(&c0, &c1);
+        // following stratum: whether / when the wrapper lets its terminal pull on a path that writes
+        // nothing is not in the statement, so each own slot may hold its old content or the followed datum
+        let untouched = (ds_same(&s0, &s1) || (fol_s.is_some() && ds_same(&fol_s, &s1))) && (dc_same(&c0, &c1) || (fol_c.is_some() && dc_same(&fol_c, &c1)));
         let (expected, write): (NothingOrError<E>, Option<Datum<State>>) = match (r.upd_err, &present) {
             (Some(e), _) => (Err(Error::Other(e)), None),
             (None, Err(e)) => (Err(*e), None),
@@ -843,6 +1066,11 @@ fn run_enc(rep: &mut Report, sub: &'static str, case: u64, rounds: &[EncRound], 
                 }
                 rep.tally("encoder_states_compared");
                 slots.own_s = Some(d);
+                if let Some(fd) = fol_s {
+                    if !ds_same(&Some(fd), &Some(d)) {
+                        rep.tally("encoder_follow_getter_state_written_not_followed_state");
+                    }
+                }
                 if !dc_same(&c0, &c1) {
                     rep.tally("encoder_command_slot_changed_while_writing_state(not_judged)");
                 }
@@ -854,7 +1082,15 @@ fn run_enc(rep: &mut Report, sub: &'static str, case: u64, rounds: &[EncRound], 
                     return;
                 }
                 rep.tally(if expected.is_err() { "encoder_untouched_on_error" } else { "encoder_untouched_on_absent" });
+                if fol_s.is_some() || fol_c.is_some() {
+                    rep.tally(if ds_same(&s0, &s1) && dc_same(&c0, &c1) { "encoder_follow_nothing_written/slots_as_before_or_equal" } else { "encoder_follow_nothing_written/followed_data_pulled(not_judged)" });
+                }
             }
+        }
+        if followed.is_some() {
+            // the model of the own slots follows the read-back here (pull not predicted on every path)
+            slots.own_s = s1;
+            slots.own_c = c1;
         }
         // ---- (c) error propagation / no invented errors
         rep.eval();
@@ -866,9 +1102,9 @@ fn run_enc(rep: &mut Report, sub: &'static str, case: u64, rounds: &[EncRound], 
             rep.tally(if r.upd_err.is_some() { "encoder_update_errors_propagated" } else { "encoder_get_errors_propagated" });
         }
     }
-    rep.distinct((sub, seq, observe));
+    rep.distinct((sub, seq, observe, fseq));
     if rep.want_sample(sub) {
-        rep.sample(sub, format!("{} rounds, first 3: {:?}", rounds.len(), &rounds[..rounds.len().min(3)]));
+        rep.sample(sub, format!("{} rounds, first 3: {:?}; followed getters, first 3: {:?}", rounds.len(), &rounds[..rounds.len().min(3)], follow.map(|f| &f[..f.len().min(3)])));
     }
 }
 // ------------------------------------------------------------------------------------------------
@@ -906,8 +1142,8 @@ fn gen_pid(rng: &mut Rng) -> PidCase {
         rounds,
     }
 }
-fn run_pid(rep: &mut Report, sub: &'static str, case: u64, c: &PidCase, observe: Option<(bool, bool)>) {
-    let hist = || format!("inner object holds (own terminal, external terminal) = {:?}; case={:?}", observe, c);
+fn run_pid(rep: &mut Report, sub: &'static str, case: u64, c: &PidCase, observe: Option<(bool, bool)>, follow: Option<&[FollowRound]>) {
+    let hist = || format!("inner object holds (own terminal, external terminal) = {:?}; own terminal follows getters: {:?}; case={:?}", observe, follow, c);
     let ext: Term<'_> = Terminal::new();
     let rec = rc(RecSettable::<f32>::new());
     let probe = observe.map(|_| rc(Probe { own: None, ext: None, log: Vec::new() }));
@@ -927,6 +1163,8 @@ fn run_pid(rep: &mut Report, sub: &'static str, case: u64, c: &PidCase, observe:
         p.ext = if other { Some(&ext) } else { None };
     }
     let mut slots = Slots::default();
+    let mut followed = follow.map(|_| Followed::attach(term));
+    let mut fseq: Vec<(u8, u8)> = Vec::new();
     // ---- the twin: a stand-alone CommandPID wired as the wrapper documents
     let time = rc(Time(c.t0));
     let time_ref: Reference<Time> = Reference::from_rc_ref_cell(time.clone());
@@ -940,6 +1178,13 @@ fn run_pid(rep: &mut Report, sub: &'static str, case: u64, c: &PidCase, observe:
     for (i, r) in c.rounds.iter().enumerate() {
         apply(&r.ops, term, &ext);
         slots.note(&r.ops);
+        // following stratum: what the own terminal will have pulled in at the start of the update
+        let mut pulled: Option<Slots> = None;
+        if let (Some(fw), Some(fr)) = (followed.as_mut(), follow) {
+            fw.deliver(rep, "pid", &fr[i], &slots);
+            fseq.push((fr[i].s.kind(), fr[i].c.kind()));
+            pulled = Some(fw.after_pull(&slots));
+        }
         {
             let mut m = rec.borrow_mut();
             m.reject = r.reject.is_some();
@@ -948,13 +1193,22 @@ fn run_pid(rep: &mut Report, sub: &'static str, case: u64, c: &PidCase, observe:
         }
         let exp_views = if probe.is_some() { expected_views(term, &ext, &slots) } else { None };
         let o0p = probe.as_ref().map(|p| p.borrow().log.len()).unwrap_or(0);
-        let before = match read_td(term) {
+        let pre_pull = read_td(term);
+        let before = match if let Some(n) = &pulled { scratch_read(n) } else { pre_pull.clone() } {
             Ok(Ok(b)) => b,
             _ => {
                 rep.tally("pid_terminal_read_failed(not_judged)");
                 return;
             }
         };
+        if let Some(n) = pulled {
+            if let Ok(Ok(p)) = &pre_pull {
+                if !out_same(&Ok(*p), &Ok(before), td_same) {
+                    rep.tally("pid_follow_pull_changes_what_terminal_sees");
+                }
+            }
+            slots = n;
+        }
         // ---- (m) what the terminal sees, against the monitor's own model of the slots it wrote
         if !check_sees(rep, "pid", sub, case, i, &before, &slots, &hist) {
             return;
@@ -1079,7 +1333,7 @@ fn run_pid(rep: &mut Report, sub: &'static str, case: u64, c: &PidCase, observe:
             rep.tally("pid_motor_errors_propagated");
         }
     }
-    rep.distinct((sub, seq, c.strict, observe));
+    rep.distinct((sub, seq, c.strict, observe, fseq));
     if rep.want_sample(sub) {
         rep.sample(sub, format!("t0={} s0={:?} c0={:?} gains={:?} strict={} {} rounds, first 3: {:?}", c.t0, c.s0, c.c0, c.gains, c.strict, c.rounds.len(), &c.rounds[..c.rounds.len().min(3)]));
     }
@@ -1117,7 +1371,7 @@ fn main() {
                     let r = SetRound { ops, reject: if inner & 1 != 0 { Some(5) } else { None }, upd_err: if inner & 2 != 0 { Some(7) } else { None } };
                     // second round: same terminal contents, inner object healthy again
                     let r2 = SetRound { ops: TermOps::default(), reject: None, upd_err: None };
-                    run_act(&mut rep, "act-grid", case, &[r, r2], None);
+                    run_act(&mut rep, "act-grid", case, &[r, r2], None, None);
                 }
             }
         }
@@ -1127,14 +1381,14 @@ fn main() {
     for case in args.cases("actuator", 60_000, 3_000_000) {
         let mut rng = Rng::new(args.seed, 2002, case);
         let rounds = gen_act(&mut rng);
-        run_act(&mut rep, "actuator", case, &rounds, None);
+        run_act(&mut rep, "actuator", case, &rounds, None, None);
     }
     // ---- 1c. actuator with an inner settable that reads the terminals from inside set / update
     for case in args.cases("act-observing", 20_000, 400_000) {
         let mut rng = Rng::new(args.seed, 2006, case);
         let rounds = gen_act(&mut rng);
         let h = gen_handles(&mut rng);
-        run_act(&mut rep, "act-observing", case, &rounds, Some(h));
+        run_act(&mut rep, "act-observing", case, &rounds, Some(h), None);
     }
     // ---- 2a. encoder: every single-round configuration
     {
@@ -1163,7 +1417,7 @@ fn main() {
                     let r = EncRound { ops, getter, upd_err: if ue != 0 { Some(3) } else { None } };
                     let r2 = EncRound { ops: TermOps::default(), getter: Ev::Some(t + 2, s4), upd_err: None };
                     let r3 = EncRound { ops: TermOps::default(), getter: Ev::None, upd_err: None };
-                    run_enc(&mut rep, "enc-grid", case, &[r, r2, r3], None);
+                    run_enc(&mut rep, "enc-grid", case, &[r, r2, r3], None, None);
                 }
             }
         }
@@ -1173,27 +1427,49 @@ fn main() {
     for case in args.cases("encoder", 60_000, 3_000_000) {
         let mut rng = Rng::new(args.seed, 2004, case);
         let rounds = gen_enc(&mut rng);
-        run_enc(&mut rep, "encoder", case, &rounds, None);
+        run_enc(&mut rep, "encoder", case, &rounds, None, None);
     }
     // ---- 2c. encoder with an inner getter that reads the terminals from inside update / get
     for case in args.cases("enc-observing", 20_000, 400_000) {
         let mut rng = Rng::new(args.seed, 2007, case);
         let rounds = gen_enc(&mut rng);
         let h = gen_handles(&mut rng);
-        run_enc(&mut rep, "enc-observing", case, &rounds, Some(h));
+        run_enc(&mut rep, "enc-observing", case, &rounds, Some(h), None);
     }
     // ---- 3. PID wrapper vs twin CommandPID
     for case in args.cases("pid", 60_000, 3_000_000) {
         let mut rng = Rng::new(args.seed, 2005, case);
         let c = gen_pid(&mut rng);
-        run_pid(&mut rep, "pid", case, &c, None);
+        run_pid(&mut rep, "pid", case, &c, None, None);
     }
     // ---- 3b. PID wrapper with a motor that reads the terminals from inside update / set
     for case in args.cases("pid-observing", 20_000, 400_000) {
         let mut rng = Rng::new(args.seed, 2008, case);
         let c = gen_pid(&mut rng);
         let h = gen_handles(&mut rng);
-        run_pid(&mut rep, "pid-observing", case, &c, Some(h));
+        run_pid(&mut rep, "pid-observing", case, &c, Some(h), None);
+    }
+    // ---- 4. following stratum: the wrapper's own terminal receives data through followed getters
+    for case in args.cases("act-following", 20_000, 400_000) {
+        let mut rng = Rng::new(args.seed, 2009, case);
+        let rounds = gen_act(&mut rng);
+        let ops: Vec<TermOps> = rounds.iter().map(|r| r.ops).collect();
+        let fl = gen_follow(&mut rng, &ops, Vals::Moderate);
+        run_act(&mut rep, "act-following", case, &rounds, None, Some(&fl));
+    }
+    for case in args.cases("enc-following", 20_000, 400_000) {
+        let mut rng = Rng::new(args.seed, 2010, case);
+        let rounds = gen_enc(&mut rng);
+        let ops: Vec<TermOps> = rounds.iter().map(|r| r.ops).collect();
+        let fl = gen_follow(&mut rng, &ops, Vals::Moderate);
+        run_enc(&mut rep, "enc-following", case, &rounds, None, Some(&fl));
+    }
+    for case in args.cases("pid-following", 20_000, 400_000) {
+        let mut rng = Rng::new(args.seed, 2011, case);
+        let c = gen_pid(&mut rng);
+        let ops: Vec<TermOps> = c.rounds.iter().map(|r| r.ops).collect();
+        let fl = gen_follow(&mut rng, &ops, Vals::Moderate);
+        run_pid(&mut rep, "pid-following", case, &c, None, Some(&fl));
     }
     // coverage the verdict depends on (merged over shards; thorough budgets are 50x larger)
     let k = if args.thorough { 200 } else { 10 };
@@ -1217,6 +1493,23 @@ fn main() {
     for w in ["actuator", "encoder", "pid"] {
         rep.floor(&format!("{}_inner_reads_compared", w), 100_000 * k);
         rep.floor(&format!("{}_inner_observations/in=update", w), 5_000 * k);
+    }
+    // following stratum (20k / 400k histories per wrapper)
+    for w in ["actuator", "pid"] {
+        rep.floor(&format!("{}_follow_pull_changes_what_terminal_sees", w), 2_000 * k);
+    }
+    rep.floor("encoder_follow_getter_state_written_not_followed_state", 2_000 * k);
+    for w in ["actuator", "encoder", "pid"] {
+        rep.floor(&format!("{}_followed_state_absent", w), 2_000 * k);
+        rep.floor(&format!("{}_followed_command_absent", w), 2_000 * k);
+        // (encoder: what its own slots hold depends on paths the statement does not fix, so the stamp
+        // relations are tallied but carry no floor there)
+        if w != "encoder" {
+            for r in ["older_than_stored", "same_stamp_as_stored", "newer_than_stored"] {
+                rep.floor(&format!("{}_followed_state_present/{}", w, r), 1_000 * k);
+                rep.floor(&format!("{}_followed_command_present/{}", w, r), 1_000 * k);
+            }
+        }
     }
     // independent model of the terminal's combined read
     for w in ["actuator", "pid"] {
